@@ -168,6 +168,9 @@ func (propC18) Gen(seed uint64, ex map[string]bool) interface{} {
 	}
 	sc.Ctx = ctx
 	nt := r.Range(2, 3)
+	if ex["tier:thorough"] {
+		nt = r.Range(2, 5)
+	}
 	for t := 0; t < nt; t++ {
 		sc.Templates = append(sc.Templates, c18Template(r))
 	}
